@@ -129,9 +129,27 @@ def _bound_from(fn_node, pred) -> Set[str]:
 
 
 def _is_dict_lookup(v) -> bool:
+    """`<x>._dict[k]` or `<x>._dict.get(k)` / `.get(k, None)` (possibly inside typing.cast)."""
     if isinstance(v, ast.Call) and callee_is(v, "cast") and len(v.args) == 2:
         v = v.args[1]
+    if (isinstance(v, ast.Call) and isinstance(v.func, ast.Attribute) and v.func.attr == "get" and isinstance(v.func.value, ast.Attribute)
+            and v.func.value.attr == "_dict" and 1 <= len(v.args) <= 2 and not v.keywords and (len(v.args) == 1 or (isinstance(v.args[1], ast.Constant) and v.args[1].value is None))):
+        return True
     return isinstance(v, ast.Subscript) and isinstance(v.value, ast.Attribute) and v.value.attr == "_dict"
+
+
+def _present_edges(g, fn, names):
+    """edge_ok: non-exceptional edges, minus the outcome `<name> is None` of a test whose whole (resolved) condition is that
+    comparison -- i.e. the paths on which the looked-up entry exists."""
+    binds = bool_binds(fn)
+    barred = set()
+    for t in g.nodes:
+        if t.kind != "test":
+            continue
+        at = test_atoms(expand(t.stmt.test, binds), True)
+        if len(at) == 1 and any(at[0][0] == f"{n} is None" for n in names):
+            barred.add((t.id, "true" if at[0][1] else "false"))
+    return lambda a, b, lab: lab != "exc" and (a, lab) not in barred
 
 
 @R.rule("C34-R2", floor=3, template="T-GUARD",
@@ -173,7 +191,7 @@ def r2(ctx):
     stores = _store_nodes(g)
     ctx.require(binds and stores, "replace() does not look up / store into _dict")
     rel_ok = bool(rel) and all(any((f"{e} is {state_p}", False) in guard_atom_set(g, n) for e in existing) for n in rel)
-    w = g.must_pass(binds, stores, rel, edge_ok=no_exc)
+    w = g.must_pass(binds, stores, rel, edge_ok=_present_edges(g, f.node, existing))
     ctx.check(rel_ok and w is None, f"{f.key}:releases-overwritten-state",
               "replace() can overwrite a different state without _manage_removed_state(existing)", "existing is not state -> _manage_removed_state(existing) before the store", f.loc, w)
     # --- no other storing method
@@ -506,7 +524,8 @@ def _callers_discard_first(ctx, fname: str, fparams: List[str], coll_param: str,
              "registered with: in every function of orm/ that writes a state's key, a store on a possibly registered state "
              "is preceded (within one loop pass) by the discard of that state and followed by its re-registration, no "
              "discard runs after the store, and a key is only removed from a state that was taken out of the map first "
-             "(one level of Session helpers and the callers of a flag-guarded removal are followed)")
+             "(one level of Session helpers, the callers of a flag-guarded removal and the call sites of a private helper that "
+             "assigns the key of a state handed to it are followed)")
 def r6(ctx):
     disc_tbl, reg_tbl = _state_helpers(ctx)
     ctx.require("_expunge_states" in disc_tbl, "Session._expunge_states is no longer recognised as discarding its states from the identity map")
@@ -1148,3 +1167,19 @@ R.mutant("key-switch-helper-nobody-discards", SESSION, _switch_helper(_SW_CALL, 
 R.mutant("key-switch-helper-caller-never-registers", SESSION,
          _switch_helper(_SW_CALL, "        self.identity_map.safe_discard(state)\n" + _SW_RECORD + "        state.key = instance_key\n",
                         sub("                old = self.identity_map.replace(state)\n", "                old = None\n")), "C34-R6")
+
+# identity.py add()/replace(): the lookup written with dict.get and guard clauses
+_ADD_OLD = ("        if key in self._dict:\n            try:\n                existing_state = self._dict[key]\n            except KeyError:\n"
+            "                # catch gc removed the key after we just checked for it\n                pass\n            else:\n"
+            "                if existing_state is not state:\n                    o = existing_state.obj()\n                    if o is not None:\n")
+R.mutant("benign-add-lookup-with-get", IDENT,
+         chain(sub(_ADD_OLD, "        existing_state = self._dict.get(key)\n        if existing_state is not None:\n            if True:\n"
+                             "                if existing_state is not state:\n                    o = existing_state.obj()\n                    if o is not None:\n")), None)
+_REPL_OLD = ("        if state.key in self._dict:\n            try:\n                existing = existing_non_none = self._dict[state.key]\n            except KeyError:\n"
+             "                # catch gc removed the key after we just checked for it\n                existing = None\n            else:\n"
+             "                if existing_non_none is not state:\n                    self._manage_removed_state(existing_non_none)\n                else:\n                    return None\n"
+             "        else:\n            existing = None\n")
+R.mutant("benign-replace-lookup-with-get-and-guard-clause", IDENT,
+         sub(_REPL_OLD, "        existing = self._dict.get(state.key)\n        if existing is not None:\n            if existing is state:\n                return None\n            self._manage_removed_state(existing)\n"), None)
+R.mutant("replace-lookup-with-get-no-release", IDENT,
+         sub(_REPL_OLD, "        existing = self._dict.get(state.key)\n        if existing is not None:\n            if existing is state:\n                return None\n"), "C34-R2")
